@@ -20,6 +20,9 @@ class Ctx:
         t = time.time()
         ix = PyIndex(self.root)
         self.timings["pyindex"] = time.time() - t
+        from .astutil import register_error_helpers
+
+        register_error_helpers(ix.all_functions)
         return ix
 
     @cached_property
